@@ -1,6 +1,7 @@
 # property -> units, unit -> engine.  (DESIGN.md section 2.1)
 UNITS = {
     "health": dict(engine="verus", serves=["C20"]),
+    "health_sites": dict(engine="verus", serves=["C20"]),
     "authz": dict(engine="verus", serves=["C02", "C11", "C13"]),
     "handler": dict(engine="verus", serves=["C01", "C03", "C05", "C10", "C11", "C14", "C15"]),
     "disk": dict(engine="verus", serves=["C19"]),
@@ -22,15 +23,28 @@ UNITS = {
 
 PROPERTIES = {
     "C20": dict(
-        units=["health"],
-        technique="Verus contracts on the extracted real functions (update_state refines a spec automaton; inductive history lemmas)",
+        units=["health", "health_sites"],
+        technique="Verus contracts on the extracted real functions (update_state refines a spec automaton; inductive history lemmas; "
+                  "every call site that publishes a health status proved to step the automaton once per observation and to publish its output)",
         level_text="Deductive proof (Verus/Z3) for all histories: StatusState::update_state, extracted verbatim, is proved to refine the "
                    "hysteresis automaton written from the statement (thresholds 1/20, saturation 10000) and history lemmas are proved by "
                    "induction over arbitrary observation sequences; ServiceState::update_service_state_entry is proved against a whole-map "
-                   "postcondition and the call site is proved to pass 120.",
+                   "postcondition and the call site is proved to pass 120. Unit health_sites: every function of the extension service that "
+                   "publishes a health status (report_proxy_agent_service_status, extension_substatus, report_proxy_agent_aggregate_status, "
+                   "restore_purge_proxyagent, the monitor_thread loop), extracted verbatim, is proved to feed each observation exactly once to "
+                   "the automaton with the flag of what the branch observed and to publish (status.status handed to common::report_status / left "
+                   "on return) exactly the text of the automaton state reached - never a literal, never a stale text; so Error is published only "
+                   "through the automaton and the history lemmas apply to every published text (lemma_site_publishes_run).",
         level_note="Trusted: Verus/Z3/rustc; &str and String extensionality axioms; vstd HashMap model plus assumed spec of HashMap::get_mut "
-                   "with borrowed str keys; String::to_string/ne specs; that the extension's monitor loop calls update_state once per "
-                   "observation (loop not under contract).",
+                   "with borrowed str keys; String::to_string/ne specs. Call sites: the setup tool's exit status is not a health observation of "
+                   "the agent - report_proxy_agent_service_status records a FAILED observation in all three branches (exit 0 / exit != 0 / could "
+                   "not be run) by design: the report is written before the (re)installed agent has been observed and yields Transitioning while "
+                   "the update is in progress; the only successful observation is the version match of extension_substatus. Stubs with no effect "
+                   "on a StatusState (logger, event_logger, SimpleSpan, misc_helpers, common::report_status and the other common:: helpers, "
+                   "write_state_event, backup_proxyagent, std::process / serde_json / tokio sleep); misc_helpers::json_read_from_file records "
+                   "what it returned in a ghost value. Not covered: the handler process (handler_main.rs report_os_not_supported, enable_handler "
+                   "start failure) publishes a literal Error for handler-command failures - these are not agent health reports and have no "
+                   "StatusState; windows-only report_ebpf_status (substatus only).",
         design_ref="DESIGN.md section 3 C20",
         assumptions=[],
     ),
